@@ -177,17 +177,24 @@ class ConfigService:
         in_app_exclude = self.__as_path_list(self.IN_APP_EXCLUDE)
 
         for path in in_app_exclude:
-            if filename.startswith(path):
+            if self.__is_under(filename, path):
                 return False, path
 
         for path in in_app_include:
-            if filename.startswith(path):
+            if self.__is_under(filename, path):
                 return True, path
 
-        if filename.startswith(self.APP_ROOT):
+        if self.__is_under(filename, self.APP_ROOT):
             return True, self.APP_ROOT
 
         return False, None
+
+    @staticmethod
+    def __is_under(filename: str, path: str) -> bool:
+        """Check that the file is under the path: '/x/app' is a prefix of '/x/app/m.py', not of '/x/app-vendor/m.py'."""
+        if not filename.startswith(path):
+            return False
+        return path == '' or path.endswith(('/', os.sep)) or filename[len(path):len(path) + 1] in ('', '/', os.sep)
 
     @staticmethod
     def __as_path_list(value) -> List[str]:
